@@ -70,7 +70,7 @@ def oracle(case, rec):
     kw = dict(opts)
     if case['energy'] is not None:
         kw['energy_thresh'] = case['energy']
-    xin = xt[:, None].copy()
+    xin = gens.arg(xt)[:, None]
     eo_live, xo_live = dict(eo), dict(xo)       # caller-owned dicts, reused for the repeated call below
     try:
         imf, flag = emd.sift.get_next_imf(xin, envelope_opts=eo_live, extrema_opts=xo_live, **kw)
